@@ -288,24 +288,42 @@ def lean_table(rows):
     L = ["-- GENERATED by harness/props_api.py from the installed networkx and /repo on every run. Do not edit.",
          "namespace Dynetx.Api", "",
          "structure Row where", "  cls : String", "  name : String", "  inherited : Bool", "  overridden : Bool", "  decorated : Bool",
-         "  listed : Bool", "  timed : Bool", "  calls : Nat", "  raised : Nat", "  nxni : Nat", "  effect : Nat", "  inconsistent : Nat", "  deriving Repr, DecidableEq", "",
+         "  listed : Bool", "  timed : Bool", "  frozen : Bool", "  calls : Nat", "  raised : Nat", "  nxni : Nat", "  effect : Nat", "  inconsistent : Nat", "  deriving Repr, DecidableEq", "",
          "def table : List Row := ["]
     items = []
     for k in sorted(rows):
         r = rows[k]
         b = lambda x: "true" if x else "false"
-        items.append('  { cls := "%s", name := "%s", inherited := %s, overridden := %s, decorated := %s, listed := %s, timed := %s, calls := %d, raised := %d, nxni := %d, effect := %d, inconsistent := %d }'
-                     % (r["cls"], r["name"], b(r["inherited"]), b(r["overridden"]), b(r["decorated"]), b(r["listed"]), b(r["timed"]), r["calls"], r["raised"], r["nxni"], r["effect"], r["inconsistent"]))
+        fz = r["name"].startswith("frozen:")
+        items.append('  { cls := "%s", name := "%s", inherited := %s, overridden := %s, decorated := %s, listed := %s, timed := %s, frozen := %s, calls := %d, raised := %d, nxni := %d, effect := %d, inconsistent := %d }'
+                     % (r["cls"], r["name"][7:] if fz else r["name"], b(r["inherited"]), b(r["overridden"]), b(r["decorated"]), b(r["listed"]), b(r["timed"]), b(fz), r["calls"], r["raised"], r["nxni"], r["effect"], r["inconsistent"]))
     L.append(",\n".join(items))
     L += ["]", "", "end Dynetx.Api", ""]
     return "\n".join(L)
+
+
+_CACHE = {}
 
 
 class C19:
     id = "C19"
 
     @staticmethod
+    def pre_obligations(tier, seed):
+        """the API table is regenerated from the installed networkx and /repo BEFORE the Lean build, so that
+        the table theorems are re-checked against what the code does now"""
+        C19.custom_run(tier, seed)
+
+    @staticmethod
     def custom_run(tier, seed):
+        if (tier, seed) in _CACHE:
+            return _CACHE[(tier, seed)]
+        r = C19._run(tier, seed)
+        _CACHE[(tier, seed)] = r
+        return r
+
+    @staticmethod
+    def _run(tier, seed):
         rows, fails, n_calls, samples, n_states = probe(tier, seed)
         here = os.path.dirname(os.path.abspath(__file__))
         path = os.path.join(os.path.dirname(here), "lean", "DynetxModel", "Generated", "ApiTable.lean")
